@@ -9,6 +9,7 @@ open MdVerif.C05
 #print axioms C05X_rootDiv
 #print axioms C05X_strip_never_fails
 #print axioms C05X_doc_spelling_notoc
+#print axioms C05X_doc_formats_agree_notoc
 #print axioms C05X_admonition_fills_hr
 #print axioms C05X_pass_commutes
 #print axioms C05X_partial
@@ -19,5 +20,8 @@ open MdVerif.C05
 #print axioms C05X_full
 #print axioms C05X_full_default
 #print axioms C05X_full_general
+#print axioms C05X_stash_shape
+#print axioms C05X_partial_fenced
+#print axioms C05X_upto_ampsub_fenced
 #print axioms C05X_nameChar_safe
 #print axioms C05X_attr_list_values_escaped
